@@ -230,3 +230,88 @@ Proof.
     unfold cols in Hc0. apply in_map_iff in Hc0. destruct Hc0 as [k [<- _]].
     unfold col. apply map_length.
 Qed.
+
+(* ---- the two irrational scalers, stated for ANY s with s*s == the rational core ------------------------
+   (the real square root is such an s; no axiom is needed for the algebra) *)
+Lemma qsum_map_sq_div s v : ~ s == 0 ->
+  qsum (map (fun x => x / s * (x / s)) v) == qsum (map (fun x => x * x) v) / (s * s).
+Proof.
+  intros Hz. induction v as [|a t IH].
+  - simpl. field. exact Hz.
+  - change (qsum (map (fun x => x / s * (x / s)) (a :: t))) with (a / s * (a / s) + qsum (map (fun x => x / s * (x / s)) t)).
+    change (qsum (map (fun x => x * x) (a :: t))) with (a * a + qsum (map (fun x => x * x) t)).
+    rewrite IH. field. exact Hz.
+Qed.
+
+Theorem vector_scaler_unit_norm v s :
+  s * s == sumsq v -> ~ s == 0 -> sumsq (map (fun x => x / s) v) == 1.
+Proof.
+  intros Hs Hz. unfold sumsq in *. rewrite map_map, qsum_map_sq_div by exact Hz.
+  rewrite <- Hs. field. exact Hz.
+Qed.
+
+Lemma qn_nonzero (v : list Q) : v <> [] -> ~ inject_Z (Z.of_nat (length v)) == 0.
+Proof.
+  intros Hne. destruct v; [congruence|]. simpl length. rewrite Nat2Z.inj_succ. unfold Qeq, inject_Z. simpl. lia.
+Qed.
+
+Lemma qsum_shift_scale mu s v :
+  ~ s == 0 -> qsum (map (fun x => (x - mu) / s) v) == (qsum v - inject_Z (Z.of_nat (length v)) * mu) / s.
+Proof.
+  intros Hz. induction v as [|a t IH].
+  - simpl. field. exact Hz.
+  - change (qsum (map (fun x => (x - mu) / s) (a :: t))) with ((a - mu) / s + qsum (map (fun x => (x - mu) / s) t)).
+    change (qsum (a :: t)) with (a + qsum t).
+    rewrite IH. simpl length. rewrite Nat2Z.inj_succ. unfold Z.succ. rewrite inject_Z_plus.
+    change (inject_Z 1) with 1. field. exact Hz.
+Qed.
+
+(* StandarScaler(with_mean, with_std): the output has mean 0 ... *)
+Theorem standard_scaler_mean_0 v s :
+  v <> [] -> ~ s == 0 -> mean (map (fun x => (x - mean v) / s) v) == 0.
+Proof.
+  intros Hne Hz. pose proof (qn_nonzero v Hne) as Hn.
+  unfold mean at 1. rewrite map_length, qsum_shift_scale by exact Hz.
+  unfold mean. field. split; assumption.
+Qed.
+
+Lemma qsum_map_sqdev_div mu s v : ~ s == 0 ->
+  qsum (map (fun x => ((x - mu) / s - 0) * ((x - mu) / s - 0)) v) ==
+  qsum (map (fun x => (x - mu) * (x - mu)) v) / (s * s).
+Proof.
+  intros Hz. induction v as [|a t IH].
+  - simpl. field. exact Hz.
+  - change (qsum (map (fun x => ((x - mu) / s - 0) * ((x - mu) / s - 0)) (a :: t)))
+      with (((a - mu) / s - 0) * ((a - mu) / s - 0) + qsum (map (fun x => ((x - mu) / s - 0) * ((x - mu) / s - 0)) t)).
+    change (qsum (map (fun x => (x - mu) * (x - mu)) (a :: t)))
+      with ((a - mu) * (a - mu) + qsum (map (fun x => (x - mu) * (x - mu)) t)).
+    rewrite IH. field. exact Hz.
+Qed.
+
+Lemma qsum_map_ext' (f g : Q -> Q) l : (forall x, f x == g x) -> qsum (map f l) == qsum (map g l).
+Proof.
+  intros H. induction l as [|a t IH]; [reflexivity|].
+  change (qsum (map f (a :: t))) with (f a + qsum (map f t)). change (qsum (map g (a :: t))) with (g a + qsum (map g t)).
+  rewrite IH, H. reflexivity.
+Qed.
+
+(* ... and, for any s with s*s == the population variance, population variance 1 *)
+Theorem standard_scaler_var_1 v s :
+  v <> [] -> s * s == pvar v -> ~ s == 0 -> pvar (map (fun x => (x - mean v) / s) v) == 1.
+Proof.
+  intros Hne Hs Hz. pose proof (qn_nonzero v Hne) as Hn.
+  unfold pvar at 1. rewrite map_length, map_map.
+  pose proof (standard_scaler_mean_0 v s Hne Hz) as M0.
+  assert (E : qsum (map (fun x => ((x - mean v) / s - mean (map (fun x0 => (x0 - mean v) / s) v)) *
+                                  ((x - mean v) / s - mean (map (fun x0 => (x0 - mean v) / s) v))) v) ==
+              qsum (map (fun x => ((x - mean v) / s - 0) * ((x - mean v) / s - 0)) v)).
+  { apply qsum_map_ext'. intros x. rewrite M0. reflexivity. }
+  rewrite E, qsum_map_sqdev_div by exact Hz.
+  rewrite Hs. unfold pvar. field. split; [exact Hn|].
+  (* the variance is non-zero because s is *)
+  intros Z. apply Hz.
+  assert (P : pvar v == 0).
+  { unfold pvar. rewrite Z. field. exact Hn. }
+  rewrite P in Hs. destruct (Qeq_dec s 0) as [|NZ]; auto. exfalso.
+  destruct (Qlt_le_dec 0 s) as [A|A]; [nra|]. assert (s < 0) by (destruct (Qlt_le_dec s 0); auto; exfalso; apply NZ; lra). nra.
+Qed.
